@@ -1,0 +1,109 @@
+//go:build verif
+
+package block
+
+import (
+	"context"
+
+	"github.com/evstack/ev-node/types"
+)
+
+// Hooks for the external verification harness (/verif). Compiled only with
+// `-tags verif`; they add accessors and single-iteration entry points and
+// change no behaviour.
+
+// VerifPublishBlock runs one block production step (the publishBlock seam).
+func (m *Manager) VerifPublishBlock(ctx context.Context) error { return m.publishBlock(ctx) }
+
+// VerifSetPublishBlock replaces the production function (test seam used by the package's own tests).
+func (m *Manager) VerifSetPublishBlock(fn func(ctx context.Context) error) { m.publishBlock = fn }
+
+func (m *Manager) VerifHeaderInCh() chan NewHeaderEvent { return m.headerInCh }
+func (m *Manager) VerifDataInCh() chan NewDataEvent     { return m.dataInCh }
+func (m *Manager) VerifTxNotifyCh() chan struct{}       { return m.txNotifyCh }
+
+func (m *Manager) VerifRetrieveSignal() bool { return m.sendNonBlockingSignalToRetrieveCh2() }
+func (m *Manager) VerifDAIncluderSignal() bool {
+	return m.sendNonBlockingSignalWithMetrics(m.daIncluderCh, "da_includer")
+}
+func (m *Manager) VerifHeaderStoreSignal() bool {
+	return m.sendNonBlockingSignalWithMetrics(m.headerStoreCh, "header_store")
+}
+func (m *Manager) VerifDataStoreSignal() bool {
+	return m.sendNonBlockingSignalWithMetrics(m.dataStoreCh, "data_store")
+}
+
+func (m *Manager) sendNonBlockingSignalToRetrieveCh2() bool {
+	return m.sendNonBlockingSignalWithMetrics(m.retrieveCh, "retrieve")
+}
+
+func (m *Manager) VerifDAHeight() uint64     { return m.daHeight.Load() }
+func (m *Manager) VerifSetDAHeight(h uint64) { m.daHeight.Store(h) }
+
+// VerifSubmitHeadersOnce executes the body of one HeaderSubmissionLoop tick.
+func (m *Manager) VerifSubmitHeadersOnce(ctx context.Context) (ran bool, err error) {
+	if m.pendingHeaders.isEmpty() {
+		return false, nil
+	}
+	headersToSubmit, err := m.pendingHeaders.getPendingHeaders(ctx)
+	if err != nil {
+		return false, err
+	}
+	if len(headersToSubmit) == 0 {
+		return false, nil
+	}
+	return true, m.submitHeadersToDA(ctx, headersToSubmit)
+}
+
+// VerifSubmitDataOnce executes the body of one DataSubmissionLoop tick.
+func (m *Manager) VerifSubmitDataOnce(ctx context.Context) (ran bool, err error) {
+	if m.pendingData.isEmpty() {
+		return false, nil
+	}
+	signedDataToSubmit, err := m.createSignedDataToSubmit(ctx)
+	if err != nil {
+		return false, err
+	}
+	if len(signedDataToSubmit) == 0 {
+		return false, nil
+	}
+	return true, m.submitDataToDA(ctx, signedDataToSubmit)
+}
+
+func (m *Manager) VerifPendingCounts() (headers, data uint64) {
+	return m.pendingHeaders.numPendingHeaders(), m.pendingData.numPendingData()
+}
+
+func (m *Manager) VerifLastSubmitted() (headers, data uint64) {
+	return m.pendingHeaders.getLastSubmittedHeaderHeight(), m.pendingData.getLastSubmittedDataHeight()
+}
+
+func VerifEmptyDataHash() []byte  { return append([]byte(nil), dataHashForEmptyTxs...) }
+func VerifMaxSubmitAttempts() int { return maxSubmitAttempts }
+func VerifDAFetcherRetries() int  { return dAFetcherRetries }
+
+func (m *Manager) VerifIsExpectedSequencer(h *types.SignedHeader) bool {
+	return m.isUsingExpectedSingleSequencer(h)
+}
+func (m *Manager) VerifIsValidSignedData(sd *types.SignedData) bool { return m.isValidSignedData(sd) }
+func (m *Manager) VerifHandlePotentialHeader(ctx context.Context, bz []byte, daHeight uint64) bool {
+	return m.handlePotentialHeader(ctx, bz, daHeight)
+}
+func (m *Manager) VerifHandlePotentialData(ctx context.Context, bz []byte, daHeight uint64) {
+	m.handlePotentialData(ctx, bz, daHeight)
+}
+func (m *Manager) VerifProcessNextDA(ctx context.Context) error {
+	return m.processNextDAHeaderAndData(ctx)
+}
+func (m *Manager) VerifTrySyncNextBlock(ctx context.Context, daHeight uint64) error {
+	return m.trySyncNextBlock(ctx, daHeight)
+}
+func (m *Manager) VerifExecValidate(st types.State, h *types.SignedHeader, d *types.Data) error {
+	return m.execValidate(st, h, d)
+}
+func (m *Manager) VerifIncrementDAIncludedHeight(ctx context.Context) error {
+	return m.incrementDAIncludedHeight(ctx)
+}
+
+func VerifBatchDataToBytes(b [][]byte) []byte          { return convertBatchDataToBytes(b) }
+func VerifBytesToBatchData(b []byte) ([][]byte, error) { return bytesToBatchData(b) }
